@@ -16,7 +16,7 @@ git checkout -q -- . && git clean -fdq -e target
 # where does the demo go?
 first="$(head -3 "$D/demo.rs")"
 crate=serde_avro_fast
-case "$first" in *serde_avro_derive/tests*) crate=serde_avro_derive;; esac
+case "$first" in *"lace at serde_avro_derive/tests"*|*"laced at serde_avro_derive/tests"*) crate=serde_avro_derive;; esac
 tname="seeded_${NAME}"
 tfile="$WT/$crate/tests/$tname.rs"
 LOG="/tmp/mut/verify_$NAME.log"; : > "$LOG"
